@@ -19,6 +19,7 @@ FARM_PORT = 18081
 _INSTALLED = [False]
 _REAL = {}
 PUMP = [None]  # optional callable run when a LoopSocket would block
+SEGMENT = [0]  # > 0: what a peer sends arrives in pieces of that many bytes
 
 
 class LoopSocket:
@@ -32,6 +33,14 @@ class LoopSocket:
     def sendall(self, b):
         if self.transport.closed:
             return None
+        if SEGMENT[0] > 0:
+            # TCP delivers a byte stream: a message may arrive in pieces
+            r = None
+            for i in range(0, len(b), SEGMENT[0]):
+                if self.transport.closed:
+                    break
+                r = self.proto.dataReceived(b[i:i + SEGMENT[0]])
+            return r
         return self.proto.dataReceived(b)
 
     def recv(self, n):
